@@ -30,10 +30,10 @@ type C11Route struct {
 }
 
 type C11Cred struct {
-	Kind    string `json:"kind"`  // absent | bearer | lower | upper | basic | noscheme | spaces | tab | trailing
-	Src     string `json:"src"`   // own | global | other | admin | none
+	Kind    string `json:"kind"` // absent | bearer | lower | upper | basic | noscheme | spaces | tab | trailing
+	Src     string `json:"src"`  // own | global | other | admin | none
 	Idx     int    `json:"idx"`
-	Variant string `json:"variant"` // exact | prefix | suffix | case | nul | space | empty | plus
+	Variant string `json:"variant"`         // exact | prefix | suffix | case | nul | space | empty | plus
 	Multi   string `json:"multi,omitempty"` // "" | bad-first | bad-second
 }
 
